@@ -833,6 +833,30 @@ def gen_task_queued_at_quit(seed, mode="loop"):
     return sc
 
 
+def gen_signal_vs_task_thread(seed, mode="loop"):
+    """C03: the thread of a task source exists (created by the library) before a module registers a signal source; the signal
+    is then sent to the process: it must reach the signal source, not a library thread that does not block it"""
+    r = random.Random(seed * 107 + 79)
+    sc = Sc(mode, "signal source registered after the library created task threads seed=%d" % seed)
+    sc.main.append(("sig_unmask",))
+    driven_skeleton(sc)
+    T, S = 1, 2
+    sc.mod(T, "tasker", 0, 0)
+    sc.mod(S, "sig", 0, 0)
+    sc.cb(T, "evt", "*", [])
+    sc.cb(S, "evt", "*", [])
+    sc.main += [("reg", T), ("start", T), ("reg", S), ("start", S)]
+    sg = r.choice([10, 12])
+    n = r.randrange(1, 4)
+    steps = [[("task_reg", T, 10 + k, 0, 0, 20000, k) for k in range(n)], [], [("sgn_reg", S, sg, 0, sc.ud())], [("raise", sg)], [], [], []]
+    for _ in range(6):
+        steps.append([("sleep", 4000)])
+    sc.meta["signals_must_fire"] = {sg: S}
+    driven_finish(sc, steps, rng=r)
+    finalize_main(sc)
+    return sc
+
+
 def gen_tick_in_flush(seed, mode="loop"):
     """C20: m_ctx_set_tick() called by a handler that the final flush of a loop run invokes (loop-stopped notification) while a
     tick is active"""
